@@ -20,7 +20,7 @@ CHECKS = {
     ),
     "C03": (
         "exhaustive enumeration of all short strings / token sequences / single-token corpus mutants / length-limit shapes entered into the real interpreter under a watchdog and subprocess isolation, plus explicit-state search of the UI calling protocol (enter, execute quanta, interrupt, listing snapshots, loads) with a full-state digest",
-        "Every input of the stated bounded families is entered as a direct line, a stored line and a stored line followed by RUN; stored multi-byte lines are followed by every program-level command; every short reply over a multi-byte alphabet is given to multi-variable INPUT statements and INKEY$; cursor operations are run at columns up to 1024 of an unterminated output line; every history of the protocol machine (from the empty interpreter and from a stored program, interrupts also while input is awaited) up to depth 6 (quick) / 8 (thorough) is executed. On each: no panic or abort, every call returns (20 s watchdog, hangs and crashes attributed to one case by the parent process), and after at most one interrupt the interpreter is stopped and PRINT 1 works. Exhaustive within the bounds.",
+        "Every input of the stated bounded families is entered as a direct line, a stored line and a stored line followed by RUN; stored multi-byte lines are followed by every program-level command; every short reply over a multi-byte alphabet is given to multi-variable INPUT statements and INKEY$; cursor operations are run at columns up to 1024 of an unterminated output line; every history of the protocol machine (from the empty interpreter and from a stored program, interrupts also while input is awaited) up to depth 6 (quick) / 8 (thorough) is executed. On each: no panic or abort, every call returns (60 s watchdog, hangs and crashes attributed to one case by the parent process), and after at most one interrupt the interpreter is stopped and PRINT 1 works. Exhaustive within the bounds.",
         "Built with debug assertions and overflow checks on (a violated debug_assert counts as a panic). Inputs longer than the enumerated lengths are covered only by the periodic length-limit shapes. The terminal front end itself is not executed.",
         "DESIGN.md §3 C03",
     ),
